@@ -351,15 +351,17 @@ OPSET = {"<": {LT}, "<=": {LT, EQ}, "==": {EQ}, "!=": {LT, GT}, ">=": {EQ, GT}, 
 
 
 def _offset(e) -> Tuple[tuple, int]:
-    """split e into (base, k) with e == base + k for integer constant k"""
+    """split e into (base, k) with e == base + k for integer constant k (nested offsets add up: (x - 1) + 1 is x + 0)"""
     if e[0] == "nary" and e[1] == "+":
         consts = [x for x in e[2] if is_int_const(x)]
         rest = [x for x in e[2] if not is_int_const(x)]
         if len(consts) == 1 and len(rest) >= 1:
             base = rest[0] if len(rest) == 1 else ("nary", "+", tuple(rest))
-            return base, consts[0][1]
+            b2, k2 = _offset(base) if len(rest) == 1 else (base, 0)
+            return b2, consts[0][1] + k2
     if e[0] == "bin" and e[1] == "-" and is_int_const(e[3]):
-        return e[2], -e[3][1]
+        b2, k2 = _offset(e[2])
+        return b2, k2 - e[3][1]
     if is_int_const(e):
         return C(0), e[1]
     return e, 0
